@@ -11,7 +11,7 @@ PROPERTY = "C02"
 NSHARDS = {"quick": 6, "thorough": 16}
 CLAUSES = {"C02.adjacent": 60, "C02.segregation": 60, "C02.nonadjacent": 60, "C02.independence": 200,
            "C02.exact": 2000, "C02.xoprob": 100, "C02.selfing": 10,
-           "C02.role.segregation": 1500, "C02.role.recombination": 800}
+           "C02.role.segregation": 4000, "C02.role.recombination": 800}
 HOOKS_REQUIRED = ["mat_meiosis calls", "dense_meiosis calls", "constant uniform() interceptions", "interp_xoprob on a matrix that already carries genetic positions",
                   "crosses whose parents differ in inbred/heterozygous status by role"]
 RULE = ("layouts = (chromosome structure, crossover-probability vector or Haldane/Kosambi map, mating protocol) drawn from seeded "
@@ -19,10 +19,19 @@ RULE = ("layouts = (chromosome structure, crossover-probability vector or Haldan
         "and dense_dh; exact two-sided binomial tests per interval / locus / marker pair / interval pair, Bonferroni family-wise "
         "alpha 1e-9 over the whole run, confirmation stage (independent seed, 4x sample, alpha 1e-6) before a rejection counts; "
         "deterministic companion: constant-uniform generators must switch exactly at {j: v < xoprob[j]}.  Non-trivial: >= 2 markers; "
-        "distinct = digest of the layout.")
+        "distinct = digest of the layout.  End-to-end family (no hook, judged on the returned progeny): every protocol x selfing depth 0-2 x "
+        "every subset of cross-table roles inbred (the other roles heterozygous), each parental line with its own allele codes; plus "
+        "two-cross tables with independent subsets, lines inbred except a heterozygous segment (and the reverse), one line in two roles, "
+        "bystander lines; 3e3 (quick) / 4e4 (thorough) independent matings per cross; frequency of every allele code at every marker and "
+        "of 'adjacent markers carry different codes' in one harness-picked chromosome copy per progeny against the exact two-locus "
+        "distribution derived from the protocol's pedigree and the stored probabilities, same Bonferroni family and confirmation stage.")
 ASSUME = ["crossovers of one meiosis are judged conditional on the parent being heterozygous at the loci involved (informative)",
           "non-adjacent expectations use r = (1-exp(-2d))/2 on the genetic positions of the generated Haldane map",
-          "a bias smaller than the reported minimum detectable deviation is invisible to the statistical clauses"]
+          "a bias smaller than the reported minimum detectable deviation is invisible to the statistical clauses",
+          "pedigrees of the end-to-end family, from the protocol definitions: self = parent selfed 1+nself times; two-way = female x male; "
+          "three-way = recurrent x (female x male); four-way = (female 2 x male 2) x (female 1 x male 1); then nself selfings, then one doubled "
+          "haploid per progeny for the DH protocols; which chromosome copy of a progeny comes from which side is NOT assumed (a copy is picked "
+          "at random by the harness); crossover probability 0.5 at every chromosome start in that family"]
 
 LOG = MO.MeiosisLog()
 
@@ -466,7 +475,7 @@ ROLES = {"SelfCross": ["parent"], "TwoWayCross": ["female", "male"], "TwoWayDHCr
          "ThreeWayCross": ["recurrent", "female", "male"], "ThreeWayDHCross": ["recurrent", "female", "male"],
          "FourWayCross": ["female 2", "male 2", "female 1", "male 1"], "FourWayDHCross": ["female 2", "male 2", "female 1", "male 1"]}
 ROLE_CONFIGS = [(name, nself, mask) for name, npar, _ in PROTOS for nself in (0, 1, 2) for mask in range(2 ** npar)]
-ROLE_N = {"quick": 24000, "thorough": 120000}
+ROLE_N = {"quick": 3000, "thorough": 40000}
 ROLE_VARIANTS = {"quick": 42, "thorough": 2 * len(ROLE_CONFIGS)}
 
 
